@@ -366,7 +366,13 @@ def peeling_rule(prog: Program, rep, RID: str):
     else:
         raise AnalysisError(f"{key}: exit test after max_bottleneck_path not recognised")
     # subtraction loop
-    subs = [s for s in lp.body if isinstance(s, ast.For)]
+    from rules.common import inline_block_locals
+    _cnt = {}
+    for n_ in ast.walk(f.node):
+        if isinstance(n_, ast.Name) and isinstance(n_.ctx, ast.Store):
+            _cnt[n_.id] = _cnt.get(n_.id, 0) + 1
+    # (locals naming the two nodes of the edge or the new value are read in place)
+    subs = [inline_block_locals(s, {k_ for k_, c_ in _cnt.items() if c_ == 1}) for s in lp.body if isinstance(s, ast.For)]
     augs = [a for s in subs for a in ast.walk(s) if isinstance(a, ast.AugAssign)]
     # `t = t - x` is read like `t -= x` (the plain form does not touch the value object the caller's graph shares: C18.R1)
     for s in subs:
